@@ -73,7 +73,7 @@ var concCases = []concCase{
 	{`[ab]+[cd]+`, []string{"xxabcdxx", "ab cd"}},
 	// one case per further strategy / scratch object (reverse searchers with several candidates, one-pass captures,
 	// two-phase capture extraction, cold and overflowing DFA caches, literal engines)
-	{`[a-z]+[0-9]*[a-z]*\.txt`, []string{".txt a.txt b1c.txt", "x.txt .txt.txt", "no suffix"}},
+	{`[a-z]+[0-9]*[a-z]*\.txt`, []string{".txt a.txt b1c.txt", ".txt .txt x.txt", "1.txt 2.txt c.txt"}}, // the first candidates fail, a later one matches
 	{`(\w+)@(\w+)\.(\w+)`, []string{"mail bob@site.com now", "a@b c@d.e f@g.h"}},
 	{`.*\.(txt|log|dat)`, []string{"a.txt b.log", "c.dat\nd.txt", "none"}},
 	{`^(\w+)\s(\w+)$`, []string{"hello world", "one two", "x y z"}},
